@@ -24,15 +24,14 @@ def main():
     ap.add_argument("--only", default=None, help="developer aid: run only units whose name contains this")
     a = ap.parse_args()
     seed = int(os.environ.get("VERIF_SEED", "0") or 0)
-    try:
-        mod = importlib.import_module(f"props.{a.prop}")
-    except ModuleNotFoundError as e:
-        print(f"CHECKER-ERROR no check for property {a.prop}: {e}")
+    from props import table
+    if a.prop not in table.PROPS:
+        print(f"CHECKER-ERROR no check registered for property {a.prop}")
         return 3
     if a.replay:
-        return mod.replay(a.replay)
+        return table.generic_replay(a.replay)
     try:
-        return mod.run(a.tier, seed, write_baseline=a.write_baseline, only=a.only)
+        return table.run(a.prop, a.tier, seed, write_baseline=a.write_baseline, only=a.only)
     except Exception:
         import traceback
         traceback.print_exc()
